@@ -111,6 +111,11 @@ namespace rkcommon {
       return a * b + c;
     }
 
+    __forceinline double madd(const double a, const double b, const double c)
+    {
+      return a * b + c;
+    }
+
     template <typename T>
     inline T lerp(const float factor, const T &a, const T &b)
     {
